@@ -176,6 +176,43 @@ def check_reverse_and_negative(ctx, path, rg, cj):
                 ctx.violate(f"{name}({-m}) differs from {name}({n - m})", cj, {"kind": "negative_index"})
 
 
+def check_from_the_end_indices(ctx, path, cj):
+    """a ray index array may name an interface point from the end (NumPy's negative indices: `Rays.get_coordinates` resolves
+    them that way): the same rays described with some point numbers written as `k - numpoints` have the same geometry"""
+    from arim import ray
+
+    rays = path.rays
+    ix = np.array(rays.indices, copy=True)
+    sizes = [len(i.points) for i in path.interfaces]
+    rng = ctx.rng
+    changed = False
+    for q, nq in enumerate(sizes):
+        mask = rng.random(ix[q].shape) < 0.5
+        if mask.any():
+            ix[q][mask] -= nq
+            changed = True
+    if not changed:
+        return
+    try:
+        alt = ray.Rays(rays.times, ix[1:-1] if ix.shape[0] > 2 else np.zeros((0,) + ix.shape[1:], dtype=ix.dtype), rays.fermat_path)
+    except Exception:
+        return    # interior indices only are constructor arguments; nothing to compare if the object refuses them
+    # the end rows are rebuilt by the constructor (non-negative); the interior rows carry the from-the-end numbers
+    rg0, rg1 = ray.RayGeometry(path.interfaces, rays, use_cache=False), ray.RayGeometry(path.interfaces, alt, use_cache=False)
+    ctx.count("from_the_end_point_indices")
+    for name in ("leg_points", "inc_leg_size", "inc_angle", "signed_inc_angle", "conventional_inc_angle", "out_angle", "inc_leg_azimuth"):
+        for k in range(path.numinterfaces):
+            try:
+                a, b = getattr(rg0, name)(k), getattr(rg1, name)(k)
+            except ValueError:
+                continue
+            A = None if a is None else np.asarray(a.coords if hasattr(a, "coords") else a)
+            B = None if b is None else np.asarray(b.coords if hasattr(b, "coords") else b)
+            if (A is None) != (B is None) or (A is not None and not np.array_equal(A, B, equal_nan=True)):
+                ctx.violate(f"{name}({k}) changes when interior points of the rays are numbered from the end (k - numpoints) instead of from the start", cj, {"kind": "from_the_end_indices"})
+                return
+
+
 def boundary_paths(rng):
     """identity frames, legs exactly on the azimuth boundaries and along the normal"""
     import arim
@@ -331,6 +368,8 @@ def run(ctx):
         if id(path) not in seen:
             seen.add(id(path))
             check_reverse_and_negative(ctx, path, rg, {"op": "reverse/negative", "numinterfaces": path.numinterfaces, "first_ray": l})
+            if path.numinterfaces >= 3:
+                check_from_the_end_indices(ctx, path, {"op": "from_the_end_indices", "numinterfaces": path.numinterfaces, "first_ray": l})
     ctx.assumptions.append("arccos/arctan2/sqrt are libm routines; angles compared within 2e-7 rad (arccos is ill-conditioned near 0 and pi), sign decisions exactly away from a 1e-9 band")
 
 
